@@ -1,4 +1,5 @@
 import RoaringModel.Treemap
+import RoaringModel.TreemapIter
 /-!
 # `Debug` formatting of `RoaringTreemap` (treemap/fmt.rs)
 
@@ -11,6 +12,33 @@ namespace Treemap
 def debugFmt (t : Treemap) : Option String :=
   if len t < 16 then
     some ("RoaringTreemap<[" ++ ", ".intercalate ((elems t).map toString) ++ "]>")
+  else
+    match min? t, max? t with
+    | some lo, some hi => some s!"RoaringTreemap<{len t} values between {lo} and {hi}>"
+    | _, _ => none
+
+/-! ### Mirrored form (fidelity audit)
+
+As for `Bitmap.debugFmtM`: the list branch prints `self.iter().collect::<Vec<u64>>()`, i.e. what the mirrored
+`treemap::Iter` (`TreemapIter.lean`, over the mirrored 32-bit iterator) yields through repeated `next()`.
+`Lemmas/FidelityFmt.lean` proves `debugFmtM t = debugFmt t` for every `Treemap.TWF` value. -/
+
+/-- `iter.collect::<Vec<u64>>()` = `next()` until the first `None` (see `Bitmap.collectFuel`) -/
+def collectFuel : Nat → TIter.Iter TIter.Inner.iter32 → List Nat
+  | 0, _ => []
+  | fuel + 1, it =>
+    match it.next with
+    | (_, none) => []
+    | (it', some x) => x :: collectFuel fuel it'
+
+/-- a `u64` cursor yields at most `2^64` values -/
+def collectFuelMax : Nat := 18446744073709551616 + 1
+
+/-- treemap/fmt.rs:9 `fmt` -/
+def debugFmtM (t : Treemap) : Option String :=
+  if len t < 16 then                                    -- :10 `self.len() < 16`
+    -- :11 `self.iter().collect::<Vec<u64>>()`
+    some ("RoaringTreemap<[" ++ ", ".intercalate ((collectFuel collectFuelMax (TIter.Iter.new t)).map toString) ++ "]>")
   else
     match min? t, max? t with
     | some lo, some hi => some s!"RoaringTreemap<{len t} values between {lo} and {hi}>"
